@@ -815,6 +815,20 @@ class Interp:
         elif cn == 'end': yield Ptr('end', 0), st
         elif cn in ('bump', 'bump_in_this_line', 'bump_to_next_line'):
             n = av[0] if av else Val.const(1)
+            if not n.is_const() and list(n.tabs) == [self.avail.level] and cn == 'bump':
+                # the count is a function of the available size (everything: bump( size() )): one exact path per size
+                for a in range(self.avail.size):
+                    part = self.sp.AND(st.cond, self.sp.restrict(self.avail.level, ((a, a),)))
+                    if part is None: continue
+                    s2 = st.fork(part)
+                    k = n.tabs[self.avail.level][a] + n.off
+                    if a >= CAP or k >= MANY or s2.pos + k > CAP:
+                        yield Abort('window'), s2; continue
+                    if k > max(a - s2.pos, 0): self.findings.append(('bump', 'advances by %d with only %d available' % (k, a - s2.pos), e.get('loc')))
+                    s2.eff = s2.eff + (('bump', Val.const(k), cn, s2.cond, s2.pos, self.callsite or e.get('loc')),)
+                    s2.pos += k
+                    yield Opaque('void'), s2
+                return
             if not n.is_const(): raise Unmodelled('%s by a symbolic count' % cn)
             if st.pos + n.off > CAP:
                 yield Abort('window'), st; return
